@@ -669,6 +669,219 @@ Definition gOp (v : value) : top pv :=
   end.
 Definition vKV (kv : str * str) : value := L [vS (fst kv); vS (snd kv)].
 
+(* ------------------------------------------------------------------ *)
+(* the loader cache (_cache) and the registration functions of src/conf.py:
+   registerGlobalValue / registerNetworkValue / registerChannelValue, Group.register -> setName,
+   _makeChild, and close() = the value lines of the nodes getValues() lists (those with _wasSet).
+   One variable = its base value and the specific nodes below it, keyed by their path
+   ([chan], [:net], [:net; chan]); child keys are compared case-insensitively like _children.
+   Not modelled: the second loop of Group.setName (a child named like the variable itself). *)
+Inductive flavor : Type := FGlobal | FNetwork | FChannel.
+Record decl : Type := mkdecl { d_ns : list str; d_fl : flavor; d_kind : kind; d_dflt : pv }.
+Definition path := list str.
+Record vstate : Type := mkvs { vbase : pv; vnodes : list (path * (pv * bool)) }.
+Definition cache := list (str * str).
+
+Fixpoint path_eqb (a b : path) : bool :=
+  match a, b with
+  | [], [] => true
+  | x :: a', y :: b' => seq_eqb (lower x) (lower y) && path_eqb a' b'
+  | _, _ => false
+  end.
+Fixpoint node_get (p : path) (l : list (path * (pv * bool))) : option (pv * bool) :=
+  match l with
+  | [] => None
+  | (q, x) :: l' => if path_eqb p q then Some x else node_get p l'
+  end.
+Fixpoint node_put (p : path) (x : pv * bool) (l : list (path * (pv * bool))) : list (path * (pv * bool)) :=
+  match l with
+  | [] => [(p, x)]
+  | (q, y) :: l' => if path_eqb p q then (q, x) :: l' else (q, y) :: node_put p x l'
+  end.
+
+(* _cache[key] = value: case-insensitive, keeps the position of the first spelling and the last spelling *)
+Fixpoint cache_put (k v : str) (c : cache) : cache :=
+  match c with
+  | [] => [(k, v)]
+  | (k', v') :: c' => if seq_eqb (lower k) (lower k') then (k, v) :: c' else (k', v') :: cache_put k v c'
+  end.
+Definition cache_of (kvs : list (str * str)) : cache :=
+  fold_left (fun c kv => cache_put (fst kv) (snd kv) c) kvs [].
+
+(* ircutils.isChannel(s) with the default chantypes / channellen (regenerated) *)
+Definition is_channel (s : str) : bool :=
+  match s with
+  | [] => false
+  | c :: _ =>
+      negb (mem COMMA s) && negb (mem 7 s) && mem c gen.T15.CHANTYPES
+      && (N.of_nat (length s) <=? gen.T15.CHANNELLEN) && Nat.eqb (length (split_ws s)) 1
+  end.
+
+(* name.lower().startswith(gname) and len(gname) < len(name);  name[len(gname)+1:]   (gname = g._name.lower()) *)
+Definition match_key (gname key : str) : option str :=
+  if startswith (lower gname) (lower key) && Nat.ltb (length gname) (length key)
+  then Some (skipn (S (length gname)) key) else None.
+
+(* the nodes the scan of one cache key instantiates, in order *)
+Definition scan_key (fl : flavor) (gname key : str) : res (list path) :=
+  match fl with
+  | FGlobal => Ok []
+  | _ =>
+      match match_key gname key with
+      | None => Ok []
+      | Some rest =>
+          do parts <- split rest;
+          match fl, parts with
+          | FChannel, [n; c] =>
+              if nonempty n && startswith [COLON] n && nonempty c && is_channel c then Ok [[n]; [n; c]] else Ok []
+          | FChannel, [c] => if is_channel c then Ok [[c]] else Ok []
+          | FNetwork, [c] => if is_channel c then Ok [[c]] else Ok []
+          | _, _ => Ok []
+          end
+      end
+  end.
+
+Definition gname_of (d : decl) : str := join_names (d_ns d).
+Definition parent_val (st : vstate) (p : path) : pv :=
+  match p with
+  | [n; _] => match node_get [n] (vnodes st) with Some (v, _) => v | None => vbase st end
+  | _ => vbase st
+  end.
+(* parent.get(child): existing node, or _makeChild (value from str(parent)) + register -> setName
+   (the cache entry of the child's own name, if any, is set on it: _wasSet) *)
+Definition ensure (d : decl) (C : cache) (st : vstate) (p : path) : res vstate :=
+  match node_get p (vnodes st) with
+  | Some _ => Ok st
+  | None =>
+      do v0 <- k_reparse (d_kind d) (d_dflt d) (parent_val st p);
+      match cache_get (join_names (d_ns d ++ p)) C with
+      | Some x => do v <- k_settext (d_kind d) v0 x; Ok (mkvs (vbase st) (vnodes st ++ [(p, (v, true))]))
+      | None => Ok (mkvs (vbase st) (vnodes st ++ [(p, (v0, false))]))
+      end
+  end.
+Fixpoint ensure_all (d : decl) (C : cache) (st : vstate) (ps : list path) : res vstate :=
+  match ps with [] => Ok st | p :: ps' => do st1 <- ensure d C st p; ensure_all d C st1 ps' end.
+
+(* register*Value(group, name, value) with the loaded cache C *)
+Fixpoint scan_keys (d : decl) (C : cache) (keys : list str) (st : vstate) : res vstate :=
+  match keys with
+  | [] => Ok st
+  | key :: keys' =>
+      do ps <- scan_key (d_fl d) (gname_of d) key;
+      do st1 <- ensure_all d C st ps;
+      scan_keys d C keys' st1
+  end.
+Definition load_var (d : decl) (C : cache) : res vstate :=
+  do b <- match cache_get (gname_of d) C with
+          | Some x => k_settext (d_kind d) (d_dflt d) x
+          | None => Ok (d_dflt d)
+          end;
+  scan_keys d C (map fst C) (mkvs b []).
+
+(* node._setValue(v): unset nodes below follow *)
+Definition set_node (st : vstate) (p : path) (v : pv) : vstate :=
+  match p with
+  | [] => mkvs v (map (fun e : path * (pv * bool) => if snd (snd e) then e
+                                else match fst e with
+                                     | [n; _] => match node_get [n] (vnodes st) with
+                                                 | Some (_, true) => e        (* below a set network node *)
+                                                 | _ => (fst e, (v, false))
+                                                 end
+                                     | _ => (fst e, (v, false))
+                                     end) (vnodes st))
+  | [n] => mkvs (vbase st)
+             (map (fun e : path * (pv * bool) => match fst e with
+                            | [n'; c] => if seq_eqb (lower n') (lower n) && negb (snd (snd e)) then (fst e, (v, false)) else e
+                            | _ => e
+                            end) (node_put p (v, true) (vnodes st)))
+  | _ => mkvs (vbase st) (node_put p (v, true) (vnodes st))
+  end.
+
+Inductive gop : Type :=
+| GSet (var : nat) (a : addr) (text : str)
+| GRead (var : nat) (a : addr).
+
+Definition addr_paths (a : addr) : list path :=   (* the .get() calls, in order *)
+  match a with AG => [] | AC c => [[c]] | AN n => [[n]] | ANC n c => [[n]; [n; c]] end.
+Definition node_val (st : vstate) (p : path) : pv :=
+  match p with [] => vbase st | _ => match node_get p (vnodes st) with Some (v, _) => v | None => vbase st end end.
+Definition node_flag (st : vstate) (p : path) : bool :=
+  match node_get p (vnodes st) with Some (_, b) => b | None => false end.
+
+(* getSpecific(network, channel)() *)
+Definition read_var (d : decl) (C : cache) (st : vstate) (a : addr) : res (vstate * pv) :=
+  match a with
+  | AG => Ok (st, vbase st)
+  | AC c => do st1 <- ensure d C st [c]; Ok (st1, node_val st1 [c])
+  | AN n => do st1 <- ensure d C st [n]; Ok (st1, node_val st1 [n])
+  | ANC n c =>
+      do st1 <- ensure_all d C st [[n]; [n; c]; [c]];
+      if node_flag st1 [n] || node_flag st1 [n; c] then Ok (st1, node_val st1 [n; c]) else Ok (st1, node_val st1 [c])
+  end.
+Definition write_var (d : decl) (C : cache) (st : vstate) (a : addr) (text : str) : res vstate :=
+  do st1 <- ensure_all d C st (addr_paths a);
+  let p := last (addr_paths a) [] in
+  match k_settext (d_kind d) (node_val st1 p) text with
+  | Ok v => Ok (set_node st1 p v)
+  | Raise InvalidRegistryValue => Ok st1          (* rejected: the value stays (the nodes reached exist now) *)
+  | Raise e => Raise e
+  end.
+
+(* close(): name: serialize for the base and every node that was set *)
+Definition save_var (d : decl) (st : vstate) : list (str * str) :=
+  (gname_of d, str_of (d_kind d) (vbase st))
+  :: flat_map (fun e : path * (pv * bool) => if snd (snd e) then [(join_names (d_ns d ++ fst e), str_of (d_kind d) (fst (snd e)))] else [])
+              (vnodes st).
+Definition save_all (D : list decl) (sts : list vstate) : list (str * str) :=
+  flat_map (fun ds : decl * vstate => save_var (fst ds) (snd ds)) (combine D sts).
+Definition file_text (lines : list (str * str)) : str :=
+  flat_map (fun l : str * str => fst l ++ [COLON; SP] ++ uesc (snd l) ++ [LF]) lines.
+
+Fixpoint nth_upd {A} (n : nat) (f : A -> res A) (l : list A) : res (list A) :=
+  match l, n with
+  | [], _ => Ok []
+  | x :: l', O => do y <- f x; Ok (y :: l')
+  | x :: l', S n' => do r <- nth_upd n' f l'; Ok (x :: r)
+  end.
+Definition dflt_decl : decl := mkdecl [] FGlobal KString (PS []).
+Fixpoint run_gops (D : list decl) (C : cache) (sts : list vstate) (ops : list gop) : res (list vstate * list pv) :=
+  match ops with
+  | [] => Ok (sts, [])
+  | GSet i a x :: ops' =>
+      do sts1 <- nth_upd i (fun st => write_var (nth i D dflt_decl) C st a x) sts;
+      run_gops D C sts1 ops'
+  | GRead i a :: ops' =>
+      do r <- read_var (nth i D dflt_decl) C (nth i sts (mkvs (PS []) [])) a;
+      do sts1 <- nth_upd i (fun _ => Ok (fst r)) sts;
+      do rest <- run_gops D C sts1 ops';
+      Ok (fst rest, snd r :: snd rest)
+  end.
+
+(* one session: load the cache, register every variable, run the operations, save *)
+Definition session (D : list decl) (C : cache) (ops : list gop) : res (list (str * str) * list pv) :=
+  do sts <- mapM (fun d => load_var d C) D;
+  do r <- run_gops D C sts ops;
+  Ok (save_all D (fst r), snd r).
+(* generations: each one loads the file the previous one saved *)
+Fixpoint generations (D : list decl) (lines : list (str * str)) (gens : list (list gop))
+  : list (res (list (str * str) * list pv)) :=
+  match gens with
+  | [] => []
+  | ops :: gens' =>
+      match (do kvs <- open_registry (file_text lines); session D (cache_of kvs) ops) with
+      | Ok r => Ok r :: generations D (fst r) gens'
+      | Raise e => [Raise e]
+      end
+  end.
+
+Definition gFlavor (v : value) : flavor := match gN v with 0 => FGlobal | 1 => FNetwork | _ => FChannel end.
+Definition gDecl (v : value) : decl :=
+  mkdecl (gLS (nth_v 0 v)) (gFlavor (nth_v 1 v)) (gKind (nth_v 2 v)) (gPV (nth_v 3 v)).
+Definition gGop (v : value) : gop :=
+  let i := N.to_nat (gN (nth_v 1 v)) in
+  let a := gAddr (nth_v 2 v) in
+  match gN (nth_v 0 v) with 0 => GSet i a (gS (nth_v 3 v)) | _ => GRead i a end.
+
 (* run: (op payload)
    0 names            -> (join text, result of split (join names))
    1 text             -> result of split text
@@ -676,7 +889,8 @@ Definition vKV (kv : str * str) : value := L [vS (fst kv); vS (snd kv)].
    3 (kind cur oks s) -> (result of set_text, its str_of, its serialize)
    4 (kind name fresh oks v) -> (value_line, open_registry of it, reload)
    5 text             -> open_registry text
-   6 (kind dflt init ops) -> outcomes of the history on the tree *)
+   6 (kind dflt init ops) -> outcomes of the history on the tree
+   7 (decls gens) -> per generation: the saved lines and the values read, or the error *)
 Definition run (v : value) : value :=
   let p := nth_v 1 v in
   match gN (nth_v 0 v) with
@@ -698,6 +912,8 @@ Definition run (v : value) : value :=
          let t0 := mktree pv (gPV (nth_v 2 p)) [] [] in
          let '(_, rs) := run_ops pv (k_reparse k dflt) (k_settext k) t0 (map gOp (gL (nth_v 3 p))) in
          L (map (vR vPV) rs)
+  | 7 => L (map (vR (fun r : list (str * str) * list pv => L [L (map vKV (fst r)); L (map vPV (snd r))]))
+              (generations (map gDecl (gL (nth_v 0 p))) [] (map (fun g => map gGop (gL g)) (gL (nth_v 1 p)))))
   | _ => L []
   end.
 
